@@ -51,10 +51,32 @@ func main() {
 }
 
 // ------------------------------------------------------------------ corr
+// iBudget: number of histories for which the encoded init segment is also emitted (I line: the model's tree of
+// the final state, encoded with C01's box encoder, must give the same bytes)
+var iBudget = 0
+
 func emit(id *int, ops []*op) {
 	init, ocs := runOps(ops)
-	fmt.Fprintf(out, "S\t%d\t%s\t%s\n", *id, opsString(ops), stateString(init, ocs))
+	os := opsString(ops)
+	fmt.Fprintf(out, "S\t%d\t%s\t%s\n", *id, os, stateString(init, ocs))
 	*id++
+	if iBudget > 0 && !strings.Contains(ocs, "p") {
+		iBudget--
+		var buf bytes.Buffer
+		obs := ""
+		if p := hx.Try(func() {
+			if err := init.Encode(&buf); err != nil {
+				obs = "ENCERR"
+			}
+		}); p != "" {
+			obs = "PANIC"
+		}
+		if obs == "" {
+			obs = fmt.Sprintf("%d|%s", init.Size(), hx.Hex(buf.Bytes()))
+		}
+		fmt.Fprintf(out, "I\t%d\t%s\t%s\n", *id, os, obs)
+		*id++
+	}
 }
 
 func exhaustiveHistories() [][]*op {
@@ -80,6 +102,7 @@ func exhaustiveHistories() [][]*op {
 
 func corr(seed uint64, n int) {
 	id := 0
+	iBudget = 1 << 30
 	for _, h := range exhaustiveHistories() {
 		emit(&id, h)
 	}
@@ -112,6 +135,7 @@ func corr(seed uint64, n int) {
 		emit(&id, h)
 	}
 	g := &gen{r: hx.NewRng(seed)}
+	iBudget = n / 4
 	for i := 0; i < n; i++ {
 		emit(&id, g.history(true))
 	}
@@ -119,6 +143,7 @@ func corr(seed uint64, n int) {
 	corrRecords(&id, hx.NewRng(seed^0x4ec), n/2)
 	// malformed / out-of-scope stream
 	g2 := &gen{r: hx.NewRng(seed ^ 0xc19c19)}
+	iBudget = n / 8
 	for i := 0; i < n; i++ {
 		emit(&id, g2.history(false))
 	}
